@@ -50,6 +50,11 @@ var mgWants = []mgWant{
 	{"internal/trigger/gaussian/gaussian_rate.go", "Calculator", "For", "", "gauss_For"},
 	{"internal/raterun/runner.go", "schedules", "start", "", "schedules_start"},
 	{"internal/raterun/runner.go", "schedules", "currentFrequency", "", "schedules_currentFrequency"},
+	{"internal/raterun/runner.go", "schedules", "startFirst", "", "schedules_startFirst"},
+	{"internal/raterun/runner.go", "schedules", "startNext", "", "schedules_startNext"},
+	{"internal/raterun/runner.go", "schedules", "stop", "", "schedules_stop"},
+	{"internal/raterun/runner.go", "Runner", "Stop", "", "runner_Stop"},
+	{"internal/raterun/runner.go", "Runner", "Restart", "", "runner_Restart"},
 	{"internal/workers/active_scenario.go", "ActiveScenario", "Run", "", "active_Run"},
 	{"internal/workers/active_scenario.go", "ActiveScenario", "Setup", "", "active_Setup"},
 	{"internal/workers/active_scenario.go", "ActiveScenario", "RecordDroppedIteration", "", "active_RecordDropped"},
@@ -82,6 +87,8 @@ var mgWants = []mgWant{
 	{"internal/trigger/staged/calculator.go", "RateCalculator", "add", "", "staged_add"},
 	{"internal/trigger/staged/calculator.go", "RateCalculator", "MaxDuration", "", "staged_MaxDuration"},
 	{"internal/metrics/result.go", "", "Result", "", "metrics_Result"},
+	{"internal/run/views/result.go", "ResultData", "Log", "", "views_Result_Log"},
+	{"internal/run/views/progress.go", "ProgressData", "Log", "", "views_Progress_Log"},
 	{"internal/run/result.go", "Result", "Summary", "", "result_Summary"},
 	{"internal/run/result.go", "Result", "Progress", "", "result_Progress"},
 	{"internal/run/result.go", "Result", "SnapshotProgress", "", "result_SnapshotProgress"},
@@ -646,6 +653,24 @@ func zeroOf(t ast.Expr) string {
 	return ".nil"
 }
 
+// a call of a package-level function with three or more arguments, used as a value: it becomes a statement of its own
+// (`callS`, whose arguments are logged) and the value is read from a temporary
+func (c *mgCtx) naryPkgCall(e ast.Expr) (string, []ast.Expr, bool) {
+	call, ok := e.(*ast.CallExpr)
+	if !ok || len(call.Args) < 3 {
+		return "", nil, false
+	}
+	sel, ok := call.Fun.(*ast.SelectorExpr)
+	if !ok {
+		return "", nil, false
+	}
+	id, ok := sel.X.(*ast.Ident)
+	if !ok || id.Obj != nil || c.rename[id.Name] != "" || c.alias[id.Name] != "" {
+		return "", nil, false
+	}
+	return id.Name + "." + sel.Sel.Name, call.Args, true
+}
+
 func (c *mgCtx) callStmt(call *ast.CallExpr, deferred bool) string {
 	// func() { … }() — a block with its own deferred calls
 	if fl, isLit := call.Fun.(*ast.FuncLit); isLit && len(call.Args) == 0 && !deferred {
@@ -712,6 +737,21 @@ func (c *mgCtx) callStmt(call *ast.CallExpr, deferred bool) string {
 			return mk(recv + "." + m)
 		}
 		if recv != "" && len(call.Args) >= 1 && !deferred {
+			var hoisted []string
+			args := make([]ast.Expr, len(call.Args))
+			copy(args, call.Args)
+			for i, a := range args {
+				if fn, fargs, ok := c.naryPkgCall(a); ok {
+					tmp := "$call" + strconv.Itoa(i)
+					hoisted = append(hoisted, "(.callS "+leanStrList([]string{tmp})+" "+leanStr(fn)+" \"\" "+c.exprList(fargs)+")")
+					args[i] = &ast.Ident{Name: tmp}
+				}
+			}
+			if len(hoisted) > 0 {
+				call2 := *call
+				call2.Args = args
+				return seq(append(hoisted, c.callStmt(&call2, false)))
+			}
 			// several arguments: they are evaluated left to right into `$arg.<callee>.<i>`, then the call is an effect
 			var parts []string
 			for i, a := range call.Args {
@@ -756,6 +796,11 @@ func (c *mgCtx) stmt(s ast.Stmt) string {
 	case *ast.ExprStmt:
 		if call, ok := x.X.(*ast.CallExpr); ok {
 			return c.callStmt(call, false)
+		}
+		if u, ok := x.X.(*ast.UnaryExpr); ok && u.Op == token.ARROW { // <-ch: wait for the channel
+			if p := c.path(u.X); p != "" {
+				return "(.effect " + leanStr("receive "+p) + ")"
+			}
 		}
 		return c.unsupportedS(s)
 	case *ast.DeferStmt:
@@ -842,6 +887,11 @@ func (c *mgCtx) stmt(s ast.Stmt) string {
 		}
 		if len(x.Lhs) != 1 || len(x.Rhs) != 1 {
 			return c.unsupportedS(s)
+		}
+		if fn, fargs, ok := c.naryPkgCall(x.Rhs[0]); ok && (x.Tok == token.ASSIGN || x.Tok == token.DEFINE) {
+			if p := c.path(x.Lhs[0]); p != "" {
+				return "(.callS " + leanStrList([]string{p}) + " " + leanStr(fn) + " \"\" " + c.exprList(fargs) + ")"
+			}
 		}
 		if call, ok := x.Rhs[0].(*ast.CallExpr); ok && x.Tok != token.ADD_ASSIGN {
 			if id, ok := call.Fun.(*ast.Ident); ok && id.Name == "append" && id.Obj == nil && len(call.Args) == 2 {
